@@ -28,9 +28,9 @@ Emit(tag, id, r) == PrintT(<<tag, id, ToJson(r)>>)
 
 \* what C19 compares of a rule
 ProjNode(nd) == [field |-> nd.field, raw |-> nd.raw, pos |-> nd.pos]
-\* ng: the rule is the first one of its group, gn: name|interval|limit|query_offset of that group
+\* ng: the rule is the first one of its group, gn / gl: name|interval|query_offset and limit of that group
 \* (the partition of the rules into groups and the group they belong to are compared too)
-ProjRule(r)  == [type |-> r.type, name |-> r.name, first |-> r.first, last |-> r.last, err |-> r.err, ng |-> r.ng, gn |-> r.gn,
+ProjRule(r)  == [type |-> r.type, name |-> r.name, first |-> r.first, last |-> r.last, err |-> r.err, ng |-> r.ng, gn |-> r.gn, gl |-> r.gl,
                  nodes |-> [k \in DOMAIN r.nodes |-> ProjNode(r.nodes[k])]]
 ProjFile(f)  == [k \in DOMAIN f.rules |-> ProjRule(f.rules[k])]
 
@@ -62,6 +62,7 @@ Diff(a, b) ==
        ELSE LET k == CHOOSE m \in S : \A o \in S : m <= o IN
             CASE a[k].type # b[k].type \/ a[k].name # b[k].name \/ a[k].err # b[k].err -> "rule"
               [] a[k].ng # b[k].ng \/ a[k].gn # b[k].gn -> "group"
+              [] a[k].gl # b[k].gl -> "group.limit"
               [] a[k].first # b[k].first \/ a[k].last # b[k].last -> "lines"
               [] Len(a[k].nodes) # Len(b[k].nodes) -> "fields"
               [] \E j \in DOMAIN a[k].nodes : a[k].nodes[j].field # b[k].nodes[j].field \/ a[k].nodes[j].raw # b[k].nodes[j].raw -> "value"
